@@ -17,7 +17,7 @@ META = {
             "replaced by an enumerator that visits every value of the requested range; TLC accumulates the histograms from the recorded "
             "outputs and judges them against the property and the reference.",
     "note": "Decides exactly the enumerated weight lists, drop configurations (denominators 100 / 10^4 / 10^6 as produced by the EDS "
-            "parser) and pick/done sequences; ranges above 2000 draws are counted by the driver and only the count is asserted by TLC; "
+            "parser) and pick/done sequences; numerators above the denominator (up to 2^32-1, incl. 429497/100, 42949673/10^4 whose 32-bit products wrap) are logged as denominator+1 (same min(num/den,1)) with the raw value as a string; ranges above 2000 draws are counted by the driver and only the count is asserted by TLC; "
             "sliding EDF windows of non-dyadic weights are allowed a slack of 1 (float ties), aligned windows are exact.",
     "technique": "TLA+ reference specification model-checked by TLC on a bounded domain; real outputs under an enumerated random "
                  "source validated by TLC",
